@@ -9,7 +9,8 @@ Tie:    (i) the skeleton itself; (ii) scripted single-process replays: orders of
         Collection objects (stale cached handles) with a fault injected at each step, after every session a
         SECOND PROCESS takes the lock (with a timeout) and lists the library — compared with the Lean backend
         model; (iii) real multi-process histories (random delays, long-lived handles, failing sessions) whose
-        merged event log is checked against the serialisation spec.
+        merged event log is checked against the serialisation spec; (iv) kill rounds: writer processes die (SIGKILL)
+        inside their sessions while others carry on (Molli.Props.C04Kill is the theorem side).
 Oracle: model-free — a hung or timed-out second process is the failing history for "releases the lock"; the
         library must hold exactly the records of the sessions whose flush completed; a session must list at
         its start every record written before.
@@ -621,7 +622,7 @@ def run(ctx):
                         "real fcntl behaviour is sampled by the second-process probe and the multi-process rounds",
                         "threads sharing a handle and nested sessions on one path in one process are outside the property"]
     work = ctx.scratch
-    ctx.proof(props=["Molli.Props.C04"], gen=["Sessions", "UkvLayout"])
+    ctx.proof(props=["Molli.Props.C04", "Molli.Props.C04Kill"], gen=["Sessions", "UkvLayout"])
 
     probe = sesslib.Probe(work)
     lines, impls = [], []
